@@ -150,12 +150,13 @@ def campaign(c, ctx, r, nprogs, mask, tier, want_stats=False, variants=("pred", 
         tag = "%d_%d_%d" % (pr["idx"], ci, ranks)
         tf = os.path.join(ctx["sd"], "trace_%s.txt" % tag) if mask else None
         sf = os.path.join(ctx["sd"], "stats_%s" % tag) if want_stats else "-"
+        nostate = [0, 2, 0, 3][(pr["idx"] + ci) % 4]      # half of the runs: some LPs never call SetState() (their state is reached without the API's pointer)
         res = S.run_sim(ctx["exe"], pr["path"], threads=th, ckpt=ck, gvt=gp, tend=pr["tend"], stats=sf, trace_file=tf,
-                        trace_mask=mask, watchdog=watchdog, timeout=watchdog + 30, ranks=ranks, delay=delay, net=net)
+                        trace_mask=mask, watchdog=watchdog, timeout=watchdog + 30, ranks=ranks, delay=delay, net=net, nostate=nostate)
         tr = S.read_trace(tf) if tf else []
         if tf and os.path.exists(tf):
             os.remove(tf)
-        return dict(prog=pr, cfg=(th, ck, gp, ranks), res=res, trace=tr, stats=(sf + ".bin") if want_stats else None, delay=delay, net=net)
+        return dict(prog=pr, cfg=(th, ck, gp, ranks), res=res, trace=tr, stats=(sf + ".bin") if want_stats else None, delay=delay, net=net, nostate=nostate)
 
     with ThreadPoolExecutor(jobs) as ex:
         runs = list(ex.map(one, jobs_list))
@@ -187,7 +188,7 @@ def worker_report(c, runs, quiet_if_violations=False):
 
 def describe(run):
     th, ck, gp, ranks = run["cfg"]
-    return dict(threads=th, checkpoint_interval=ck, gvt_period_us=gp, ranks=ranks, variant=run["prog"]["variant"], injected_delay=run.get("delay"), network_delays=run.get("net"),
+    return dict(threads=th, checkpoint_interval=ck, gvt_period_us=gp, ranks=ranks, variant=run["prog"]["variant"], injected_delay=run.get("delay"), network_delays=run.get("net"), lps_without_setstate_mod=run.get("nostate", 0),
                 tend=run["prog"]["tend"], cmd=run["res"].cmd)
 
 
